@@ -100,6 +100,23 @@ func (m *machine) enabled() []*thread {
 	return out
 }
 
+// enabledOthers: the threads other than the current one that could run now
+// (long timers of other threads are not considered ready while this is evaluated).
+func (m *machine) enabledOthers() []*thread {
+	if m.inLongCheck {
+		return nil
+	}
+	m.inLongCheck = true
+	defer func() { m.inLongCheck = false }()
+	var out []*thread
+	for _, t := range m.enabled() {
+		if t != m.cur {
+			out = append(out, t)
+		}
+	}
+	return out
+}
+
 func (m *machine) spawn(name string, fn value, args []value) {
 	t := m.newThread(name, fn, args)
 	_ = t
@@ -337,6 +354,7 @@ type chanV struct {
 	elem     types.Type
 	recvWait int
 	ticker   bool // time.Ticker / time.After channel: may deliver while the budget lasts
+	long     bool // a time-out (>= 1 s): delivers only when nothing else can happen
 	name     string
 	isDone   bool // a context's Done channel
 }
@@ -346,6 +364,17 @@ func (m *machine) makeChan(size int, elem types.Type) *chanV {
 }
 
 func (c *chanV) canRecv(m *machine) bool {
+	if c.ticker && c.long {
+		// a time-out fires when no thread can run and no short timer can deliver any more
+		if m.tickBudget > 0 || m.inLongCheck {
+			return false
+		}
+		for _, t := range m.enabledOthers() {
+			_ = t
+			return false
+		}
+		return true
+	}
 	if c.ticker {
 		return m.tickBudget > 0
 	}
@@ -402,6 +431,11 @@ func (m *machine) chanRecv(cv value, elem types.Type) (value, bool) {
 }
 
 func (m *machine) takeFrom(c *chanV, elem types.Type) (value, bool) {
+	if c.ticker && c.long {
+		m.cur.sleptSinceDone = true
+		m.longTimerFired = true
+		return zero(elem), true
+	}
 	if c.ticker {
 		m.cur.sleptSinceDone = true
 		m.tickBudget--
